@@ -146,6 +146,21 @@ def cost_is_pure(ctx, rule: str):
                '; '.join(f'{e.detail[:70]} at {e.where()}' for e in hard[:2]) +
                ': every evaluation of the cost modifies a tensor the next evaluation reads, so '
                'the penalty is not strength x cost from the second call on', where(f))
+        # ... and it does not re-assign state that it reads itself (sampled selection
+        # coefficients, memoised masks): the regularizer must price the architecture sample the
+        # forward pass used, and two evaluations with no step in between must agree
+        reads = E.attrs_read(list(E.reachable(f).values()))
+        stores = [e for e in E.closure(f) if e.kind == 'setattr' and
+                  e.owners & {'self', 'g:self', 'unknown', 'global'} and
+                  e.name.strip("'") in reads]
+        ctx.ob(rule, f'{wname}._get_single_cost re-assigns nothing it reads', not stores,
+               'no attribute read by the cost is stored while it is evaluated' if not stores else
+               '; '.join(f'{e.fn.qualname.split("plinio.")[-1]} stores {e.name} = {e.detail[:60]} '
+                         f'at {e.where()}' for e in stores[:2]) +
+               ': the cost is evaluated on state it has just replaced (a fresh sample of the '
+               'selection coefficients when sampling is stochastic), so the penalty is neither '
+               'strength x the cost the forward pass saw nor reproducible between two calls',
+               where(f))
 
 
 def run(ctx):
